@@ -94,6 +94,10 @@ func (c *FnCtx) finalize() {
 					rel = true
 				}
 			}
+			if len(names) == 0 && c.usesStrLt {
+				// an axiom over built-in operators only (the order on strings)
+				rel = true
+			}
 			if !rel {
 				continue
 			}
@@ -156,6 +160,9 @@ func (c *FnCtx) finalize() {
 				}
 			}
 			sort.Strings(syms)
+			if len(names) == 0 {
+				syms = []string{"str_lt"} // included in the queries in which a string comparison occurs
+			}
 			c.axioms = append(c.axioms, axiomInst{name: ax.Name, syms: syms, text: t})
 			c.usedAxioms = append(c.usedAxioms, ax.Name)
 		}
